@@ -80,6 +80,28 @@ theorem C06_logloss_mcb_zero_of_recalibrated (sf : SF ℝ) (hk : sf.kind = .logl
   exact dec_row_mcb_zero_fix sf (Or.inl rfl) ys w (ll_allowed sf hk he ys w) sm X₀ tx₀ ty₀ h₀
     rows[i] hrow
 
+/-- **`mcb = 0` for isotonic-recalibrated forecasts — EVERY score object** (any kind, degree, level,
+elementary or not) whose effective functional is the mean or an expectile, over any ordered field,
+provided no domain repair takes place (`dec_yminAllowed`): if column `i` is the recalibration
+`recal(X₀)` of some forecast `X₀` for the same functional and level, row `i` has `mcb = 0` exactly.
+(No optimality argument: recalibrating a recalibrated forecast returns it unchanged.) -/
+theorem C06_mcb_zero_of_recalibrated_any_score {K : Type} [Field K] [LinearOrder K]
+    [IsStrictOrderedRing K] [ScoreOps K] [Inhabited K] (sf : SF K)
+    (fn : Option (Option Functional)) (lv : Option K) (ys : List K)
+    (cols : List (List K)) (w : Option (List K)) (rows : List (DecompRow K))
+    (h : decompose sf fn lv ys cols w = .ok rows)
+    (f : Functional) (lv' : K) (hv : dec_validate sf fn lv = .ok (f, lv'))
+    (hme : f = .mean ∨ f = .expectile) (hallowed : dec_yminAllowed sf ys w = true)
+    (i : Nat) (hi : i < cols.length) (hr : i < rows.length)
+    (X₀ tx₀ ty₀ : List K) (h₀ : isoFit (some f) lv' true X₀ ys w = .ok (tx₀, ty₀))
+    (hx : cols[i] = X₀.map (interp tx₀ ty₀)) : rows[i].mcb = 0 := by
+  obtain ⟨f', lv'', marg, sm, hv', _, _, hrows⟩ := (dec_ok_iff sf fn lv ys cols w rows).mp h
+  rw [hv] at hv'
+  cases hv'
+  have hrow := dec_mapM_get hrows i hi hr
+  rw [hx] at hrow
+  exact dec_row_mcb_zero_fix sf hme ys w hallowed sm X₀ tx₀ ty₀ h₀ rows[i] hrow
+
 /-- … in the form "recalibration leaves the column unchanged": the recalibration of a recalibrated
 column is the column itself -/
 theorem C06_logloss_recal_of_recalibrated (sf : SF ℝ) (hk : sf.kind = .logloss)
